@@ -94,15 +94,32 @@ package multiparty
 //@   ensures implies(isnil(err), val(shareOut.Value[0]) == old(val(share1.Value[0])) + old(val(share2.Value[0])) && val(shareOut.Value[1]) == old(val(share1.Value[1])) + old(val(share2.Value[1])))
 //@   ensures implies(len(share1.Value[0].Coeffs) != len(share2.Value[0].Coeffs) || len(share1.Value[1].Coeffs) != len(share2.Value[1].Coeffs), !isnil(err))
 
+// `safety rows`: the aggregate may be at ANOTHER level than the ciphertext (GenShare works at the smaller of the
+// two levels, that is how an output at a lower level is asked for): no row beyond either is touched (finding F54)
 //@ afunc KeySwitchProtocol.KeySwitch
 //@   property C16
-//@   requires len(ctIn.Value) == 2 && len(opOut.Value) == 2 && len(ctIn.Value[0].Coeffs) >= 1
+//@   safety rows
+//@   requires len(ctIn.Value) == 2 && len(opOut.Value) == 2 && len(ctIn.Value[0].Coeffs) >= 1 && len(ctIn.Value[1].Coeffs) == len(ctIn.Value[0].Coeffs) && len(combined.Value.Coeffs) >= 1
 //@   requires mexp(combined.Value) == mexp(ctIn.Value[0]) && indom(ctIn.Value[0], ctIn.IsNTT) && indom(combined.Value, ctIn.IsNTT)
 //@   case true
 //@   case true ; alias opOut = ctIn
 //@   ensures val(opOut.Value[0]) == old(val(ctIn.Value[0])) + old(val(combined.Value))
 //@   ensures val(opOut.Value[1]) == old(val(ctIn.Value[1]))
 //@   ensures iff(opOut.IsNTT, ctIn.IsNTT)
+//@   ensures len(opOut.Value[0].Coeffs) == ite(old(len(ctIn.Value[0].Coeffs)) < len(combined.Value.Coeffs), old(len(ctIn.Value[0].Coeffs)), len(combined.Value.Coeffs)) && len(opOut.Value[1].Coeffs) == len(opOut.Value[0].Coeffs)
+
+// the same towards a public key: the second component of the result is the second component of the aggregate
+//@ afunc PublicKeySwitchProtocol.KeySwitch
+//@   property C16
+//@   safety rows
+//@   requires len(ctIn.Value) == 2 && len(opOut.Value) == 2 && len(combined.Value) == 2 && len(ctIn.Value[0].Coeffs) >= 1 && len(ctIn.Value[1].Coeffs) == len(ctIn.Value[0].Coeffs) && len(combined.Value[0].Coeffs) >= 1 && len(combined.Value[1].Coeffs) == len(combined.Value[0].Coeffs)
+//@   requires mexp(combined.Value[0]) == mexp(ctIn.Value[0]) && indom(ctIn.Value[0], ctIn.IsNTT) && indom(combined.Value[0], ctIn.IsNTT)
+//@   case true
+//@   case true ; alias opOut = ctIn
+//@   ensures val(opOut.Value[0]) == old(val(ctIn.Value[0])) + old(val(combined.Value[0]))
+//@   ensures val(opOut.Value[1]) == old(val(combined.Value[1]))
+//@   ensures iff(opOut.IsNTT, ctIn.IsNTT)
+//@   ensures len(opOut.Value[0].Coeffs) == ite(old(len(ctIn.Value[0].Coeffs)) < len(combined.Value[0].Coeffs), old(len(ctIn.Value[0].Coeffs)), len(combined.Value[0].Coeffs)) && len(opOut.Value[1].Coeffs) == len(opOut.Value[0].Coeffs)
 
 //@ afunc EvaluationKeyGenProtocol.AggregateShares
 //@   trusted aggregation over the gadget digit matrix (nested loops over rows) is not yet under contract; nothing is assumed about its effect
